@@ -1,7 +1,7 @@
-(* ===== Show.v : canonical outcomes and in-Coq comparison ===== *)
+(* ===== Show.v : canonical outcomes of the parser model and in-Coq comparison ===== *)
 From Coq Require Import List NArith ZArith Bool Arith.
 Import ListNotations.
-Require Import Tok Parser Parser2 Parser3.
+Require Import Tok Classify Parser Parser2 Parser3.
 Open Scope N_scope.
 Definition sset := list (list str).
 Definition sside := (sset + list sset)%type.
@@ -20,18 +20,42 @@ Definition sideeqb (a b : sside) := match a, b with inl x, inl y => sseteqb x y 
 Definition oeqb (a b : outcome) := match a, b with
   | ORoot x, ORoot y => sideeqb x y | OTwo a1 a2, OTwo b1 b2 => sideeqb a1 b1 && sideeqb a2 b2
   | OMulti, OMulti | OReject, OReject | OPySyntax, OPySyntax => true | OInternal n, OInternal m => Nat.eqb n m | _, _ => false end.
-Fixpoint chk (cl : N -> cls) (cs : list (str * bool * (bool*bool*bool) * option (list str) * list (str * nat) * list (str * list str) * outcome)) (i : nat) : nat * list nat :=
+
+Record pcase := {
+  p_src : str;                          (* the formula string *)
+  p_intercept : bool;
+  p_flags : bool * bool * bool;          (* TWOSIDED, MULTIPART, MULTISTAGE *)
+  p_avail : option (list str);           (* __formulaic_variables_available__ *)
+  p_bad : list (str * nat);              (* python fragments that ast rejects: 0 = SyntaxError, n = other class *)
+  p_norm : list (str * str);             (* python fragments and their normal form *)
+  p_vars : list (str * list str);        (* variables reported for each (normalised) python fragment *)
+  p_expect : outcome                     (* what the implementation returned *)
+}.
+Definition run_case (extra : list (N * (bool * bool * bool))) (c : pcase) : outcome :=
+  let '(f1, f2, f3) := p_flags c in
+  show (get_terms true (p_intercept c) {| f_two := f1; f_parts := f2; f_stage := f3 |} (p_avail c) (p_bad c) (p_norm c) (p_vars c)
+                  (classify_with extra) (p_src c)).
+(* ASTNode.to_terms evaluates nodes in graphlib order, the model left to right: when two nodes fail, which exception
+   surfaces may differ.  After the repairs this is observable only for the recorded KeyError finding ('.' without intercept). *)
+Definition order_only (c : pcase) (got exp : outcome) : bool :=
+  negb (p_intercept c) && match got, exp with
+                          | OInternal 6, OReject | OReject, OInternal 6 => true
+                          | _, _ => false end.
+Fixpoint chk_parser (extra : list (N * (bool * bool * bool))) (cs : list pcase) (i : nat) : nat * list nat :=
   match cs with [] => (O, [])
-  | (s, ic, (f1, f2, f3), av, bad, pv, exp) :: r =>
-      let '(m, fl) := chk cl r (S i) in
-      if oeqb (show (get_terms false ic {| f_two := f1; f_parts := f2; f_stage := f3 |} av bad pv cl s)) exp then (m, fl) else (S m, i :: fl)
+  | c :: r => let '(m, fl) := chk_parser extra r (S i) in
+              if oeqb (run_case extra c) (p_expect c) || order_only c (run_case extra c) (p_expect c) then (m, fl) else (S m, i :: fl)
   end.
 
-Fixpoint chkf (fixed : bool) (cl : N -> cls) (cs : list (str * bool * (bool*bool*bool) * option (list str) * list (str * nat) * list (str * list str) * outcome)) (i : nat) : nat * list nat :=
+(* ---------- tokenizer level: (text, kind, start, end) or the error site ---------- *)
+Definition kcode (k : option kind) : nat := match k with Some KContext => 0 | Some KOperator => 1 | Some KValue => 2 | Some KName => 3 | Some KPython => 4 | None => 9 end%nat.
+Definition ecode (e : terr) : nat := match e with EUnterminated => 0 | EUnexpectedQuote => 1 | EUnexpectedKind => 2 end%nat.
+Definition on (o : option nat) := match o with Some n => n | None => 999%nat end.
+Definition tshow (r : list token + terr) : list (str * nat * nat * nat) + nat :=
+  match r with inl ts => inl (map (fun t => (ttext t, kcode (tkind t), on (tstart t), on (tend t))) ts) | inr e => inr (ecode e) end.
+Fixpoint tseqb (a b : list (str * nat * nat * nat)) := match a, b with [], [] => true
+  | (t1,k1,s1,e1) :: a', (t2,k2,s2,e2) :: b' => leqb t1 t2 && Nat.eqb k1 k2 && Nat.eqb s1 s2 && Nat.eqb e1 e2 && tseqb a' b' | _, _ => false end.
+Definition tagree (x y : list (str * nat * nat * nat) + nat) := match x, y with inl a, inl b => tseqb a b | inr a, inr b => Nat.eqb a b | _, _ => false end.
+Fixpoint chk_tok (extra : list (N * (bool * bool * bool))) (cs : list (str * (list (str * nat * nat * nat) + nat))) (i : nat) : nat * list nat :=
   match cs with [] => (O, [])
-  | (s, ic, (f1, f2, f3), av, bad, pv, exp) :: r =>
-      let '(m, fl) := chkf fixed cl r (S i) in
-      let got := show (get_terms fixed ic {| f_two := f1; f_parts := f2; f_stage := f3 |} av bad pv cl s) in
-      let got' := match got with OInternal _ => OReject | g => g end in   (* the reference says "reject" where the code crashes *)
-      if oeqb got' exp then (m, fl) else (S m, i :: fl)
-  end.
+  | (a, b) :: r => let '(m, f) := chk_tok extra r (S i) in if tagree (tshow (tokenize (classify_with extra) a)) b then (m, f) else (S m, i :: f) end.
